@@ -298,9 +298,16 @@ fn step(ctx: &mut Ctx, id: &str, t: &[&str]) -> String {
             };
             let ver = version(t.get(4).copied().unwrap_or("V3"));
             let threads = ctx.threads;
-            match in_pool(threads, || verifier.verify_with_version(proof, &pi, ver)) {
-                Ok(()) => "OK".into(),
-                Err(e) => format!("ERR {}", err_kind(&e)),
+            let r = in_pool(threads, || verifier.verify_with_version(proof, &pi, ver));
+            #[cfg(feature = "std")]
+            let chs = if threads == 0 {
+                dusk_plonk::verif::last_challenges().iter().map(hex_of_fr).collect::<Vec<_>>().join(",")
+            } else { String::new() };
+            #[cfg(not(feature = "std"))]
+            let chs = String::new();
+            match r {
+                Ok(()) => format!("OK ch={}", chs),
+                Err(e) => format!("ERR {} ch={}", err_kind(&e), chs),
             }
         }
         "concurrent" => {
